@@ -144,6 +144,10 @@ func GenGroups(g G, w *World, maxDepth int, exoticNames bool) []GroupSpec {
 	n := g.Int(0, 5, "ngroups")
 	comps := []string{"a", "b", "c", "rel", "misc", "x", "team", "Main", "my-group", "g1"}
 	if exoticNames {
+		// symbols that differ only in letter case are different groups (git keeps the case of subsections)
+		comps = append(comps, "A", "Rel", "REL", "main", "MAIN", "Team", "X")
+		builtinsCase := []string{"Tags", "Branches", "TAGS", "Remotes"}
+		comps = append(comps, builtinsCase...)
 		comps = append(comps, "sp ace", "q\"uote", "back\\slash", "UPPER", "caf\xc3\xa9", "[1]", "per%cent", "semi;colon", "a=b", "#hash")
 	}
 	builtins := []string{"branches", "tags", "remotes", "pulls", "notes"}
